@@ -253,7 +253,7 @@ def illTyped {α} : HM α := do markBad; HM.raise excPython
 def saOf (p : Payload) : HM (List Proposal) := match p.body with | .sa ps => pure ps | _ => illTyped
 def keOf (p : Payload) : HM (Nat × Bytes) := match p.body with | .ke g d => pure (g, d) | _ => illTyped
 def nonceOf (p : Payload) : HM Bytes := match p.body with | .nonce d => pure d | _ => illTyped
-def tsOf (p : Payload) : HM (List TS) := match p.body with | .ts l => pure l | _ => illTyped
+def tsBodyOf (p : Payload) : HM (List TS) := match p.body with | .ts l => pure l | _ => illTyped
 def idOf (p : Payload) : HM (Nat × Bytes) := match p.body with | .ident t d => pure (t, d) | _ => illTyped
 
 /-- a NOTIFY payload whose type satisfies `f` -/
@@ -578,8 +578,8 @@ def childCreateResponder (chosen : Proposal) (chosenTsr chosenTsi : TS) (mode : 
 /-- the body of the `try` of `_process_create_child_sa_negotiation_req` -/
 def childNegotiationReqBody (request : Msg) : HM (List Payload) := do
   let sa ← saOf (← getPayload request ptSA true)
-  let tsi ← tsOf (← getPayload request ptTSi true)
-  let tsr ← tsOf (← getPayload request ptTSr true)
+  let tsi ← tsBodyOf (← getPayload request ptTSi true)
+  let tsr ← tsBodyOf (← getPayload request ptTSr true)
   let me ← getMe
   if me.core.st = stREK_IKE_SA_REQ_SENT ∨ me.core.st = stDEL_IKE_SA_REQ_SENT then HM.raise excTemporaryFailure
   let pre ← childRekeyPrelude request sa tsi tsr
@@ -816,8 +816,8 @@ inductive ChildRes where
 /-- `_process_create_child_sa_negotiation_res(response)` -/
 def childNegotiationResBody (response : Msg) : HM Unit := do
   let sa ← saOf (← getPayload response ptSA true)
-  let tsi ← tsOf (← getPayload response ptTSi true)
-  let tsr ← tsOf (← getPayload response ptTSr true)
+  let tsi ← tsBodyOf (← getPayload response ptTSi true)
+  let tsr ← tsBodyOf (← getPayload response ptTSr true)
   let transport := ¬ (getNotifies response nUSE_TRANSPORT_MODE true).isEmpty
   let me ← getMe
   if response.hdr.exch ≠ 35 then do
